@@ -9,7 +9,7 @@ unset GOWORK
 cd "$DIR" || exit 2
 for attempt in 1 2 3; do
 OUT=$(mktemp)
-go test -mod=mod -json -vet=off -count=1 -timeout 25m ./... > "$OUT" 2>/dev/null
+go test -mod=mod -json -vet=off -count=1 -timeout 4m ./... > "$OUT" 2>/dev/null
 python3 - "$OUT" <<'PY'
 import json,sys
 base=json.load(open('/root/.vp/BASELINE.json'))['stable_pass']
